@@ -177,7 +177,10 @@ def render_cexpr(w, ctexts, meta):
         return f"__tmp_assign_{w[1]}"
     if t == 3:
         opname = [v[1] for v in BINOPS.values() if v[0] == w[2]][0]
-        return f"({_txt(w[1])} {meta['bin'][opname]} {ctexts[w[3]]})"
+        form = (meta.get("bin_forms") or {}).get(opname, "({l} " + meta["bin"][opname] + " {r})")
+        if form is None:
+            raise ValueError(f"the parser rejects the operator {opname}")
+        return form.replace("{l}", _txt(w[1])).replace("{r}", ctexts[w[3]])
     raise ValueError(w)
 
 
